@@ -343,9 +343,9 @@ def rule_R5(ctx, f):
                 si = b.switch_info(bi)
                 if si and si[0][0] == "discr" and peel(si[0][1], transparent=OPT_T) == P(1):
                     some_t = [t for v, t in si[1] if v == 1][0]
-                    ok = ok and all(x not in b.reach(some_t, avoid_blocks=[ms[0].bb]) for x in okb)
+                    ok = ok and all(x not in b.reach_ps(some_t, avoid_blocks=[ms[0].bb]) for x in okb)
         ctx.ob(rid, "new_custom|prefix-validated", ok, "a given prefix must pass is_valid_metric_name, otherwise Err (\"{prefix}_{name}\" is a metric name only then)", site=ms[0].span if ms else b.raw["span"]["at"])
-        hits = validated_loop(ctx, rid, b, "new_custom|label-names", "is_valid_label_name", lambda t: t == lab, "every common label name")
+        hits = validated_loop(ctx, rid, b, "new_custom|label-names", "is_valid_label_name", lambda t: t == lab or payload_of(t, P(2)), "every common label name")
         for bi in b.reachable_blocks():
             si = b.switch_info(bi)
             if si and si[0] == ("discr", P(2)) and hits:
